@@ -68,15 +68,19 @@ ObjOf(j) ==
 -----------------------------------------------------------------------------
 (* The comparison C01/C02/C14 prescribe: d is a document-side value, f a value read from bytes.  *)
 (* Equal kinds, identical bytes, same nesting and references; an integral real may be the        *)
-(* integer of the same value; a real token matches iff it lies in the f32's rounding interval.   *)
+(* integer of the same value - the same VALUE, not merely a decimal that rounds to the same f32:  *)
+(* Real(33554448.0) may come back as Integer(33554448), not as Integer(33554450) (d.iv holds the   *)
+(* exact digits of an integral real); a real token matches iff it lies in the f32's rounding     *)
+(* interval.                                                                                       *)
 
 RealTokMatches(d, f) ==      \* d document real (with interval), f "real" or "int" token value
     LET tok == IF f.k = "int" THEN [ip |-> f.v, fp |-> <<>>] ELSE [ip |-> f.v, fp |-> f.w]
         zero == StripLeadingZeros(tok.ip) = <<0>> /\ StripTrailingZeros(tok.fp) = <<>>
         inside == IF d.incl THEN DecLE(d.lo, tok) /\ DecLE(tok, d.hi)
                   ELSE DecLT(d.lo, tok) /\ DecLT(tok, d.hi)
-    IN /\ inside
-       /\ (f.neg = d.neg \/ zero)
+    IN IF f.k = "int"
+       THEN d.int /\ StripLeadingZeros(f.v) = StripLeadingZeros(d.iv) /\ (f.neg = d.neg \/ zero)
+       ELSE inside /\ (f.neg = d.neg \/ zero)
 
 RECURSIVE Matches(_, _)
 Matches(d, f) ==
